@@ -6,17 +6,20 @@ fn a(s: &str) -> AsciiString { AsciiString::try_from(s).unwrap() }
 
 /// names: e.g. "a,B,a,c"; values are v0,v1,...; op in {remove_all, remove_only, get_all, get_only}
 fn run(names: &str, op: &str, target: &str) -> Option<String> {
-    let names: Vec<&str> = names.split(',').filter(|s| !s.is_empty()).collect();
+    // a leading '=' gives every field the same value (repeated identical field lines): matching is by name, never by value
+    let same = names.starts_with('=');
+    let names: Vec<&str> = names.trim_start_matches('=').split(',').filter(|s| !s.is_empty()).collect();
     let mut list = HeaderList::new();
     let mut model: Vec<(String, String)> = Vec::new();
     for (i, n) in names.iter().enumerate() {
-        list.add(n, a(&format!("v{i}")));
-        model.push((n.to_string(), format!("v{i}")));
+        let v = if same { "v".to_string() } else { format!("v{i}") };
+        list.add(n, a(&v));
+        model.push((n.to_string(), v));
     }
     let is_match = |n: &str| n.eq_ignore_ascii_case(target);
     let want_vals: Vec<String> = model.iter().filter(|(n, _)| is_match(n)).map(|(_, v)| v.clone()).collect();
     let want_rest: Vec<(String, String)> = model.iter().filter(|(n, _)| !is_match(n)).cloned().collect();
-    let desc = format!("headers names={} op={op} target={target}", names.join(","));
+    let desc = format!("headers names={}{} op={op} target={target}", if same { "=" } else { "" }, names.join(","));
     let (got_vals, got_rest): (Vec<String>, Vec<(String, String)>) = match op {
         "remove_all" => {
             let v = list.remove_all(target).into_iter().map(String::from).collect();
@@ -104,6 +107,7 @@ fn main() {
             for op in ["remove_all", "remove_only", "get_all", "get_only"] {
                 n += 1;
                 if let Some(m) = run(&names, op, "a") { if found.len() < 5 { found.push(m) } }
+                if len <= 4 { n += 1; if let Some(m) = run(&format!("={names}"), op, "a") { if found.len() < 5 { found.push(m) } } }
             }
         }
     }
